@@ -345,10 +345,12 @@ package stree
 //@   at entry: ghost K0 = root.right.keys
 //@   loop 1: invariant [C01,C04] spine: goat != nil && goat in D0 && (par == root ==> goat == root.right) && (par != root ==> par in D0 && par.left == goat && par != goat)
 //@   loop 1: invariant [C01,C04] least: forall k int :: {k in K0} k in K0 ==> k in goat.keys || k > rank(cmp, goat.X)
+//@   loop 1: invariant [C01,C04] elsewhere: forall z *node[T], k int :: {z in D0, k in goat.keys} z in D0 && !(z in goat.desc) && !(goat in z.desc) && k in goat.keys ==> !(k in z.keys)
 //@   loop 1: invariant [C01,C04] sealed: forall y *node[T] :: {y in D0} (y in D0 || y == root) && !(y in goat.desc) && y != par ==> !inD(goat, y.left) && !inD(goat, y.right)
 //@   loop 1: decreases cntOf(goat)
 //@   at loop 1 exit: ghost gk = rank(cmp, goat.X)
 //@   at loop 1 exit: assert [C01,C04] forall y *node[T] :: {y in D0} (y in D0 || y == root) && (y.left == goat || y.right == goat) ==> y == par
+//@   at loop 1 exit: assert [C01,C04] forall z *node[T] :: {z in D0} z in D0 && z != goat && !(goat in z.desc) ==> !(gk in z.keys)
 //@   at loop 1 exit: assert [C01,C04] forall k int :: {k in K0} k in K0 ==> k >= gk
 //@   at loop 1 exit: assert [C01,C04] forall y *node[T] :: {y in D0} y in D0 && goat in y.desc && y != goat ==> gk in y.keys && gk < rank(cmp, y.X)
 //@   at loop 1 exit: assert [C01,C04] forall y *node[T] :: {y in D0} y in D0 && goat in y.desc && y != goat ==> y.left != nil && goat in y.left.desc && !(inK(y.right, gk)) && !(inD(y.right, goat))
